@@ -68,6 +68,11 @@ PROGRAMS = {
     'neg-latency': dict(routines=[dict(seed=1, steps=['log', 'sendneg', 'send', 'sendneg'])], sym=9),
     'bool-yield': dict(routines=[dict(seed=1, steps=['log', 'send', 'ybool', 'send']),
                                  dict(seed=2, steps=['log', 'send', 'log'])]),
+    'restart': dict(routines=[dict(seed=5, steps=['rand', 'log', 'log', 'restart', 'rand', 'log']),
+                              dict(seed=7, steps=['rand'])]),
+    # logical beats are concrete and on / off a bar line; the physical wake-up times are symbolic (jitter)
+    'next-bar': dict(routines=[dict(seed=1, steps=['meter', 'nextbar', 'send', 'nextbar', 'nextbar'])], sym=0, jitter=True,
+                     deltas=[[0.0, 2.0, 1.0, 1.0, 0.5, 0.5]], clocks=['tempo']),
     'reseed': dict(routines=[dict(seed=9, steps=['rand', 'seed', 'rand']), dict(seed=9, steps=['rand', 'rand'])]),
 }
 THOROUGH_PROGRAMS = {
@@ -106,7 +111,8 @@ class Prog:
         self.kind = clock_kind
         self.n = len(spec['routines'])
         nsym = spec.get('sym', 1)
-        self.d = [[ctx.real(f'd{i}_{k}', 0, 100) if k < nsym else CONCRETE_DELTAS[i % 3][k % 6]
+        fixed = spec.get('deltas') or CONCRETE_DELTAS
+        self.d = [[ctx.real(f'd{i}_{k}', 0, 100) if k < nsym else fixed[i % len(fixed)][k % len(fixed[i % len(fixed)])]
                    for k in range(len(r['steps']) + 1)] for i, r in enumerate(spec['routines'])]
         self.L = ctx.real('L', 0, 100)
         self.ra = ctx.real('ra', -50, 50)
@@ -190,6 +196,15 @@ class Prog:
                         stm.Routine(child_body).play(clock, 0)
                     elif op == 'seed':
                         me.rand_seed = 1234
+                    elif op == 'restart':
+                        # the other routine has ended: reset it and play it again (it keeps its own random stream)
+                        if other.state == stm.Routine.State.Done:
+                            other.reset()
+                            other.play(clock, 0)
+                    elif op == 'meter':
+                        clock.beats_per_bar = 2      # bars are counted from this beat on
+                    elif op == 'nextbar':
+                        log.append((('nextbar', i, k), [clock.next_bar() - B0]))
                     yield self.d[i][k]
                 log.append((('end', i), [clock.seconds - S, clock.beats - B0]))
             r = stm.Routine(body)
@@ -691,7 +706,8 @@ def main(tier, seed):
         sm = r.pop('summaries', [])
         chk.add('nrt', r)
         j = dict(r['job'], mode='rt', summaries=sm,
-                 jitter=(tier != 'quick') or progs[r['job']['prog']].get('sym', 1) > 1)
+                 jitter=(tier != 'quick') or progs[r['job']['prog']].get('sym', 1) > 1
+                 or bool(progs[r['job']['prog']].get('jitter')))
         if sm and not r.get('violations') and not r.get('truncated'):
             rt_jobs.append(j)
     for r in run_jobs('vf.props.c10', 'job_rt', rt_jobs, 'rt'):
